@@ -200,15 +200,15 @@ impl FillView for SplitMix64 {
 }''')
     rp = mod + '::RngCore@SplitMix64'
     u.impl(cr, rp, header='impl Next32 for SplitMix64', fns=['next_u32'], contracts={
-        'next_u32': Fn(None, ret='r', builtin_props='C14', ensures=[
+        'next_u32': Fn(None, ret='r', builtin_props='C14', trait_props='C05', ensures=[
             C('splitmix64.next_u32.out', 'C01 C05', 'r == mix32(add64(old(self).x, PHI_REF()))'),
             C('splitmix64.next_u32.state', 'C01 C05 C10', 'final(self).x == add64(old(self).x, PHI_REF())')])})
     u.impl(cr, rp, header='impl Next64 for SplitMix64', fns=['next_u64'], contracts={
-        'next_u64': Fn(None, ret='r', builtin_props='C14', ensures=[
+        'next_u64': Fn(None, ret='r', builtin_props='C14', trait_props='C05', ensures=[
             C('splitmix64.next_u64.out', 'C01 C05', 'r == mix64(add64(old(self).x, PHI_REF()))'),
             C('splitmix64.next_u64.state', 'C01 C05 C10', 'final(self).x == add64(old(self).x, PHI_REF())')])})
     u.impl(cr, rp, header='impl Fill for SplitMix64', fns=['fill_bytes'], contracts={
-        'fill_bytes': Fn(None, builtin_props='C14')})
+        'fill_bytes': Fn(None, builtin_props='C14', trait_props='C05')})
     sp = mod + '::SeedableRng@SplitMix64'
     u.impl(cr, sp, header='impl SeedableRng for SplitMix64', keep=['type Seed'], extra='''
     open spec fn seed_bytes(s: [u8; 8]) -> Seq<u8> { s@ }
@@ -216,10 +216,10 @@ impl FillView for SplitMix64 {
     open spec fn from_seed_v(b: Seq<u8>) -> u64 { vstd::bytes::spec_u64_from_le_bytes(b) }
     open spec fn seed_from_u64_v(x: u64) -> u64 { x }
 ''', fns=['from_seed', 'seed_from_u64'], contracts={
-        'from_seed': Fn(None, ret='r', builtin_props='C14',
+        'from_seed': Fn(None, ret='r', builtin_props='C14', trait_props='C01 C09',
                         ensures=[C('splitmix64.from_seed.le', 'C01 C09', 'r.x == vstd::bytes::spec_u64_from_le_bytes(seed@)')],
                         inserts=[after(lit('read_u64_into(&seed, &mut state);'), 'proof { assert(seed@.subrange(0, 8) =~= seed@); }')]),
-        'seed_from_u64': Fn(None, ret='r', builtin_props='C14',
+        'seed_from_u64': Fn(None, ret='r', builtin_props='C14', trait_props='C01 C09',
                             ensures=[C('splitmix64.seed_from_u64.id', 'C01 C09', 'r.x == seed')],
                             inserts=[entry('proof { vstd::bytes::lemma_auto_spec_u64_to_from_le_bytes(); }')]),
     })
@@ -234,7 +234,7 @@ def derived(u, cr, mod, name, g, eq_expr, clone_post):
           '    open spec fn obeys_eq_spec() -> bool { true }\n'
           '    open spec fn eq_spec(&self, other: &%s) -> bool { %s }\n}' % (name, name, eq_expr))
     u.impl(cr, mod + '::PartialEq@' + name, header='impl PartialEq for ' + name, fns=['eq'], contracts={
-        'eq': Fn(None, ret='r', builtin_props='C14', ensures=[
+        'eq': Fn(None, ret='r', builtin_props='C14', trait_props='C10', ensures=[
             C('%s.eq.iff_all_fields' % name.lower(), 'C10', 'r == (%s)' % eq_expr.replace('self.', 'self.'))])})
     u.skip(mod + '::Debug@' + name + '::fmt', 'derived Debug; no claimed property depends on it')
     u.skip(mod + '::Eq@' + name + '::assert_fields_are_eq', 'compile-time marker, empty body')
@@ -253,8 +253,9 @@ def build_gen(u, cr, name, g):
     view_fin = view_expr(g, 'final(self)')
     view_self = view_expr(g, 'self')
     native = 'next_u64' if W == 64 else 'next_u32'
-    tailproof = Insert('tail', None, 'proof { assert(%s =~= %s_next(%s)); }' % (view_self, eng, view_old))
-    native_fc = Fn(None, ret='r', builtin_props='C14', ensures=[
+    tailproof = Insert('tail', None, 'proof { assert(@0@); }', clauses=[
+        C('%s.%s.state_words' % (low, native), 'C01 C05 C06 C10', '%s =~= %s_next(%s)' % (view_self, eng, view_old))])
+    native_fc = Fn(None, ret='r', builtin_props='C14', trait_props='C05', ensures=[
         C('%s.%s.out' % (low, native), 'C01 C05', 'r == %s_out(%s)' % (low, view_old)),
         C('%s.%s.state' % (low, native), 'C01 C05 C06 C10', '%s =~= %s_next(%s)' % (view_fin, eng, view_old))],
         inserts=[tailproof])
@@ -262,18 +263,18 @@ def build_gen(u, cr, name, g):
     if W == 64:
         half = g['half']
         proj = '(%s_out(%s) >> 32u64) as u32' % (low, view_old) if half == 'upper' else '%s_out(%s) as u32' % (low, view_old)
-        other_fc = Fn(None, ret='r', builtin_props='C14', ensures=[
+        other_fc = Fn(None, ret='r', builtin_props='C14', trait_props='C05', ensures=[
             C('%s.next_u32.half' % low, 'C05', 'r == %s' % proj),
             C('%s.next_u32.one_step' % low, 'C05 C10', '%s =~= %s_next(%s)' % (view_fin, eng, view_old))])
         u.impl(cr, rp, header='impl Next64 for ' + name, fns=['next_u64'], contracts={'next_u64': native_fc})
         u.impl(cr, rp, header='impl Next32 for ' + name, fns=['next_u32'], contracts={'next_u32': other_fc})
     else:
-        other_fc = Fn(None, ret='r', builtin_props='C14', ensures=[
+        other_fc = Fn(None, ret='r', builtin_props='C14', trait_props='C05', ensures=[
             C('%s.next_u64.via_u32' % low, 'C05', 'r == via_u32::<Self>(%s).0' % view_old),
             C('%s.next_u64.two_steps' % low, 'C05 C10', '%s =~= %s_next(%s_next(%s))' % (view_fin, eng, eng, view_old))])
         u.impl(cr, rp, header='impl Next32 for ' + name, fns=['next_u32'], contracts={'next_u32': native_fc})
         u.impl(cr, rp, header='impl Next64 for ' + name, fns=['next_u64'], contracts={'next_u64': other_fc})
-    u.impl(cr, rp, header='impl Fill for ' + name, fns=['fill_bytes'], contracts={'fill_bytes': Fn(None, builtin_props='C14')})
+    u.impl(cr, rp, header='impl Fill for ' + name, fns=['fill_bytes'], contracts={'fill_bytes': Fn(None, builtin_props='C14', trait_props='C05')})
 
     # ---- seeding -----------------------------------------------------------------------------------
     n = g['seed']
@@ -288,12 +289,12 @@ def build_gen(u, cr, name, g):
         src = '&seed.0' if g.get('seed512') else '&seed'
         fs_ins.append(after(lit('read_u%d_into(%s, &mut state);' % (W, src)),
                             'proof { assert(state@ =~= %s(%s)); }' % (words, seedbytes)))
-    from_seed = Fn(None, ret='r', builtin_props='C14', ensures=[
+    from_seed = Fn(None, ret='r', builtin_props='C14', trait_props='C08 C09', ensures=[
         C('%s.from_seed.zero_remapped' % low, 'C08', 'all_zero(%s) ==> r.v() == Self::seed_from_u64_v(0)' % seedbytes),
         C('%s.from_seed.verbatim_le' % low, 'C01 C08', '!all_zero(%s) ==> r.v() == %s(%s)' % (seedbytes, words, seedbytes))],
         inserts=fs_ins,
         dialect=[d11_seed512] if g.get('seed512') else [])
-    seed_from_u64 = Fn(None, ret='r', builtin_props='C14', ensures=[
+    seed_from_u64 = Fn(None, ret='r', builtin_props='C14', trait_props='C08 C09', ensures=[
         C('%s.seed_from_u64.splitmix_expansion' % low, 'C08 C09', 'r.v() == Self::from_seed_v(%s(seed, %d).0)' % (sm, n))])
     sp = mod + '::SeedableRng@' + name
     u.impl(cr, sp, header='impl SeedableRng for ' + name, keep=['type Seed'], extra=gen_spec_impls_seed(name, g),
